@@ -145,19 +145,21 @@ def build_unit(repo, crate, fname, common_macros, prims):
     u.file = os.path.join(crate, "src", fname + ".rs")
     return u
 
-def emit_unit(u, order, exclude=()):
-    """returns (lean text, translated fn names, {fn: reason} for the untranslatable ones)"""
+def emit_unit(u, order, exclude=(), helpers=False):
+    """returns (lean text, translated fn names, {fn: reason} for the untranslatable ones).  Definitions are emitted in
+    dependency order (a function whose callee is translated later is retried); with `helpers`, methods of the unit that are
+    not listed are translated too when a listed function calls them."""
     out, done, skipped = [], [], {}
     out.append(f"namespace {u.namespace.split('Rngs.')[1]}")
-    order = [n for n in order if n not in exclude]
+    listed = [n for n in order if n not in exclude]
     for n in exclude:
         if n in u.methods:
             skipped[n] = exclude[n] if isinstance(exclude, dict) else "excluded"
-    for name in order:
-        if name not in u.methods:
-            continue
+    pending = [n for n in listed if n in u.methods]
+    texts, waiting = {}, {}
+    def attempt(name):
         try:
-            if name == "fill_bytes":
+            if name == "fill_bytes" and not helpers:
                 d = translate_fill_bytes(u, u.methods[name])
             elif name == "from_seed":
                 d = translate_fn(u, name)
@@ -172,17 +174,51 @@ def emit_unit(u, order, exclude=()):
             ia = rs2lean.LAST.get((u.name, name), {}).get("ignored_asserts")
             if ia:
                 ASSERTS.setdefault(u.name, {})[name] = ia
-            missing = [m for m in re.findall(re.escape(u.namespace) + r"\.(\w+)", d) if m not in done and m != name]
-            missing += [n for n, full in getattr(u, "extern", {}).items() if n in exclude and re.search(re.escape(full) + r"\b", d)]
-            if missing:
-                skipped[name] = f"depends on {missing[0]}, which is not translated"
-                continue
-            out.append(d)
-            done.append(name)
+            texts[name] = d
+            return None
         except Unsupported as e:
-            skipped[name] = str(e)
+            return str(e)
         except Exception as e:
-            skipped[name] = f"translator error: {e!r}"
+            return f"translator error: {e!r}"
+    for name in pending:
+        err = attempt(name)
+        if err is not None:
+            skipped[name] = err
+    # unlisted helper methods that a translated function calls
+    if helpers:
+        grew = True
+        while grew:
+            grew = False
+            for d in list(texts.values()):
+                for m in re.findall(re.escape(u.namespace) + r"\.(\w+)", d):
+                    if m not in texts and m not in skipped and m in u.methods and m not in exclude:
+                        err = attempt(m)
+                        if err is not None:
+                            skipped[m] = err
+                        grew = True
+    # emission in dependency order
+    remaining = dict(texts)
+    progress = True
+    while remaining and progress:
+        progress = False
+        for name in list(dict.fromkeys(n for n in (listed + sorted(remaining)) if n in remaining)):
+            if name not in remaining:
+                continue
+            d = remaining[name]
+            deps = [m for m in re.findall(re.escape(u.namespace) + r"\.(\w+)", d) if m != name]
+            deps += [n for n, full in getattr(u, "extern", {}).items() if n in exclude and re.search(re.escape(full) + r"\b", d)]
+            bad = [m for m in deps if m not in done and m not in remaining]
+            if bad:
+                skipped[name] = f"depends on {bad[0]}, which is not translated"
+                del remaining[name]
+                progress = True
+            elif all(m in done for m in deps):
+                out.append(d)
+                done.append(name)
+                del remaining[name]
+                progress = True
+    for name in remaining:
+        skipped[name] = "call cycle among the translated functions"
     out.append(f"end {u.namespace.split('Rngs.')[1]}")
     return "\n".join(out), done, skipped
 
@@ -368,11 +404,14 @@ def generate(repo, exclude=None):
     for crate, builder, thms in (("rand_hc", build_units_hc, hc_theorems), ("rand_isaac", build_units_isaac, isaac_theorems)):
         try:
             for u, order in builder(repo):
+                if u is None:
+                    report[order[0]] = dict(error=order[1])
+                    continue
                 ex = dict(exclude.get(u.name, {}))
                 for n, full in getattr(u, "extern", {}).items():
                     if full not in avail:
                         ex[n] = "defined in another unit, where it is not translated"
-                text, done, skipped = emit_unit(u, order, ex)
+                text, done, skipped = emit_unit(u, order, ex, helpers=True)
                 avail |= {f"{u.namespace}.{n}" for n in done}
                 parts.append(text)
                 report[u.name] = dict(file=u.file, translated=done, skipped=skipped, shape=u.shape, seed_len=u.seed_len)
@@ -380,7 +419,7 @@ def generate(repo, exclude=None):
                     report[u.name]["ignored_asserts"] = ASSERTS[u.name]
                 theorems += thms(u, done)
         except Exception as e:
-            report[crate] = dict(error=repr(e))
+            report[crate + (":Hc128Core" if crate == "rand_hc" and "Hc128Fns" in report else "")] = dict(error=repr(e))
     digest = hashlib.sha256("\n".join(parts).encode()).hexdigest()[:16]
     out = [HEADER.format(digest=digest)] + parts + ["\nnamespace ExtTie"]
     for name, stmt, props, fn in theorems:
@@ -475,7 +514,7 @@ def add_nested(methods, parent, names, macros):
 
 def build_units_hc(repo):
     """rand_hc: f1, f2 (nested in Hc128Core::init; unit Hc128Fns) and Hc128Core: step_p, step_q, generate, sixteen_steps,
-    init, from_seed.  State = the model's Hc128.Core (t : Array U32, counter : Nat)."""
+    init, from_seed.  State = the model's Hc128.Core (t : Array U32, counter : Nat).  Yields (unit, order) or (None, reason)."""
     path = os.path.join(repo, "rand_hc/src/hc128.rs")
     f = rsfront.load(path)
     consts, vals = file_consts(f)
@@ -494,11 +533,12 @@ def build_units_hc(repo):
             pass
     fu = Unit("Hc128Fns", StructInfo("Hc128Fns", "Unit", {}), ms, {}, macros, {}, "Rngs.Ext.Hc128Fns")
     fu.shape, fu.seed_len, fu.file = ("fn", 32), None, "rand_hc/src/hc128.rs"
-    units = [(fu, ["f1", "f2"])]
+    yield fu, ["f1", "f2"]
     # the core
+    TYCTX["aliases"], TYCTX["consts"] = aliases, vals
     fields = {n: ty_of_tokens(t) for n, t in f.structs.get("Hc128Core", [])}
     if fields != {"t": ("arr", "u32", 1024), "counter1024": "nat"}:
-        raise Unsupported(f"Hc128Core has fields {fields}")
+        raise Unsupported(f"the state of Hc128Core is not (t: [u32; 1024], counter1024: usize): {fields}")
     sinfo = StructInfo("Hc128Core", "Hc128.Core", {"t": (("arr", "u32", 1024), "t"), "counter1024": ("nat", "counter")})
     prims = {"read_u32_into": prim_read_into(32), "le::read_u32_into": prim_read_into(32), "@bytes_types": ()}
     cm = dict(methods)
@@ -506,8 +546,7 @@ def build_units_hc(repo):
     u = Unit("Hc128Core", sinfo, cm, consts, macros, prims, "Rngs.Ext.Hc128Core", aliases, vals)
     u.extern = {n: "Rngs.Ext.Hc128Fns." + n for n in ms}
     u.shape, u.seed_len, u.file = ("Hc128Core", 32), 32, "rand_hc/src/hc128.rs"
-    units.append((u, ["step_p", "step_q", "generate", "sixteen_steps", "init", "from_seed"]))
-    return units
+    yield u, ["step_p", "step_q", "generate", "sixteen_steps", "init", "from_seed"]
 
 def hc_theorems(u, done):
     if u.name == "Hc128Fns":
@@ -552,35 +591,40 @@ def isaac_array_alias(repo):
 
 def build_units_isaac(repo):
     """rand_isaac: IsaacCore (isaac.rs) and Isaac64Core (isaac64.rs): the nested fns ind, rngstep (in generate), mix (in init),
-    generate, init, from_seed, seed_from_u64.  State = the model's Isaac.Core w."""
-    units = []
+    generate, init, from_seed, seed_from_u64.  State = the model's Isaac.Core w.  Yields (unit, order) / (None, (name, reason))."""
     arr_n = isaac_array_alias(repo)
     for fname, sname, w in (("isaac", "IsaacCore", 32), ("isaac64", "Isaac64Core", 64)):
-        path = os.path.join(repo, "rand_isaac/src", fname + ".rs")
-        f = rsfront.load(path)
-        consts, vals = file_consts(f)
-        if vals.get("RAND_SIZE") != arr_n:
-            raise Unsupported("RAND_SIZE of isaac_array.rs differs")
-        macros = dict(f.macros)
-        aliases = {k: "".join(t[1] for t in toks) for k, toks in f.types.items()}
-        TYCTX["aliases"], TYCTX["consts"] = aliases, vals
-        methods, ali = methods_of(f, sname)
-        aliases.update(ali)
-        for T in (f"u{w}", "Self::Item"):
-            aliases[f"IsaacArray<{T}>"] = f"[{T};RAND_SIZE]"
-        wt = f"w{w}"
-        fields = {n: ty_of_tokens(t) for n, t in f.structs.get(sname, [])}
-        if fields != {"mem": ("arr", wt, 256), "a": wt, "b": wt, "c": wt}:
-            raise Unsupported(f"{sname} has fields {fields}")
-        sinfo = StructInfo(sname, f"Isaac.Core {w}", {"mem": (("arr", wt, 256), "mem"), "a": (wt, "a"), "b": (wt, "b"), "c": (wt, "c")})
-        add_nested(methods, "generate", ["ind", "rngstep"], macros)
-        add_nested(methods, "init", ["mix"], macros)
-        prims = {"read_u32_into": prim_read_into(32), "le::read_u32_into": prim_read_into(32),
-                 "read_u64_into": prim_read_into(64), "le::read_u64_into": prim_read_into(64), "@bytes_types": ()}
-        u = Unit(sname, sinfo, methods, consts, macros, prims, f"Rngs.Ext.{sname}", aliases, vals)
-        u.shape, u.seed_len, u.file, u.width = (sname, w), 32, f"rand_isaac/src/{fname}.rs", w
-        units.append((u, ["ind", "rngstep", "generate", "mix", "init", "from_seed", "seed_from_u64", "from_rng", "try_from_rng"]))
-    return units
+        try:
+            path = os.path.join(repo, "rand_isaac/src", fname + ".rs")
+            f = rsfront.load(path)
+            consts, vals = file_consts(f)
+            if vals.get("RAND_SIZE") != arr_n:
+                raise Unsupported("RAND_SIZE of isaac_array.rs differs")
+            macros = dict(f.macros)
+            aliases = {k: "".join(t[1] for t in toks) for k, toks in f.types.items()}
+            TYCTX["aliases"], TYCTX["consts"] = aliases, vals
+            methods, ali = methods_of(f, sname)
+            aliases.update(ali)
+            for T in (f"u{w}", "Self::Item"):
+                aliases[f"IsaacArray<{T}>"] = f"[{T};RAND_SIZE]"
+            wt, ut = f"w{w}", f"u{w}"
+            fields = {n: ty_of_tokens(t) for n, t in f.structs.get(sname, [])}
+            # Wrapping<uN> or plain uN words (plain + - * are translated as wrapping: overflow panics are C14's subject)
+            ok = list(fields) == ["mem", "a", "b", "c"] and fields["mem"] in (("arr", wt, 256), ("arr", ut, 256)) and \
+                all(fields[k] in (wt, ut) for k in "abc")
+            if not ok:
+                raise Unsupported(f"the state of {sname} is not (mem: [w{w}; 256], a, b, c: w{w}): {fields}")
+            sinfo = StructInfo(sname, f"Isaac.Core {w}", {"mem": (fields["mem"], "mem"), "a": (fields["a"], "a"),
+                                                           "b": (fields["b"], "b"), "c": (fields["c"], "c")})
+            add_nested(methods, "generate", ["ind", "rngstep"], macros)
+            add_nested(methods, "init", ["mix"], macros)
+            prims = {"read_u32_into": prim_read_into(32), "le::read_u32_into": prim_read_into(32),
+                     "read_u64_into": prim_read_into(64), "le::read_u64_into": prim_read_into(64), "@bytes_types": ()}
+            u = Unit(sname, sinfo, methods, consts, macros, prims, f"Rngs.Ext.{sname}", aliases, vals)
+            u.shape, u.seed_len, u.file, u.width = (sname, w), 32, f"rand_isaac/src/{fname}.rs", w
+            yield u, ["ind", "rngstep", "generate", "mix", "init", "from_seed", "seed_from_u64", "from_rng", "try_from_rng"]
+        except Exception as e:
+            yield None, (sname, repr(e))
 
 def isaac_theorems(u, done):
     w, E, G = u.width, f"Ext.{u.name}", u.name
